@@ -8,7 +8,10 @@ executor glue that says on which OS thread a coroutine contender's code runs.
 `queue` — `_queue`: owner-private FIFO (head = next owner).
 
 One agent = one contender (`sync`: runs on its own thread; `coro`: starts on its own thread, continues wherever it
-is resumed).  `agentStep` executes an agent's plain code up to and including its next synchronising operation, or
+is resumed).  Contenders work through `mutex::ownership` objects: `held o` says that ownership object `o` is armed for
+the mutex (object `a` = agent `a`'s own object, object `c.n` = the slot shared by all contenders); a grant is stored
+into the round's object, the mutex is given up through that object (`release()`, destruction, move into a temporary
+that is destroyed, move-assignment of the ownership of the agent's private auxiliary mutex over it).  `agentStep` executes an agent's plain code up to and including its next synchronising operation, or
 up to a control transfer (finish / suspend / transfer).  `threadStep` composes agents into what an OS thread does
 between two scheduling points of the baton harness (`harness/h_mutex.cpp`).
 -/
@@ -28,20 +31,25 @@ def seenOf : List Elem → Seen
   | Elem.node a :: _ => Seen.node a
 
 inductive Flavour where
-  | lock      -- blocking `lock().wait()`
+  | lock      -- blocking `lock().wait()` / `ownership own(mx.lock())` / `force_wait()`; blocks the OS thread it runs on
+              -- (for a `coro` agent: issued by an ordinary function called from the running coroutine)
   | try_      -- `try_lock()`
   | co        -- `co_await lock()`
+  | cb        -- callback awaiter registered with `co_awaiter<mutex>::subscribe()`; the grant runs the callback inline
   deriving DecidableEq, Repr, Inhabited
 
 inductive Rel where
   | x   -- `own.release()`, suspend point discarded
-  | d   -- ownership destroyed
+  | d   -- ownership destroyed (shared slot: overwritten by an empty ownership)
   | a   -- `co_await own.release()`
+  | g   -- hand-over-hand: the ownership of the agent's auxiliary mutex is move-assigned over the held one
+  | m   -- moved into a temporary ownership (move construction) which is destroyed
   deriving DecidableEq, Repr, Inhabited
 
 structure Round where
   fl : Flavour
   rel : Rel
+  shared : Bool := false   -- the ownership is kept in the slot shared by all contenders
   deriving DecidableEq, Repr, Inhabited
 
 inductive AKind where
@@ -61,8 +69,10 @@ inductive Pc where
   | build                -- found the mutex free: `build_queue(self)`
   | parked               -- suspended, waiting for the grant
   | waitFlag | blocked   -- blocking waiter: `flag.wait(false)`
-  | crit                 -- owner: enter the critical section
-  | afterCs              -- leave it and start `unlock`
+  | crit                 -- owner: store the ownership into the round's object, enter the critical section
+  | critS                -- owner whose ownership was already stored by its callback: enter the critical section
+  | afterCs              -- leave it and start `unlock` (rel `g`: lock the auxiliary mutex first)
+  | asg                  -- rel `g`: move-assign the auxiliary ownership over the held one: start `unlock`
   | relBuild             -- unlock: fast path failed, `build_queue(doorman)`
   | relHand              -- unlock: hand over to the head of `_queue`
   | relDone              -- round finished
@@ -76,9 +86,12 @@ inductive TMain where
 inductive Ev where
   | cas (t a : Nat) (ok : Bool) (s d : Seen)
   | xchg (t a : Nat) (s d : Seen)
-  | store (t a : Nat) (b : Nat) (k : Nat)
-  | waitBlock (t a : Nat) (k : Nat)
-  | waitPass (t a : Nat) (k : Nat)
+  | store (t a : Nat) (ft : Nat) (k : Nat)
+  | waitBlock (t a : Nat) (ft : Nat) (k : Nat)
+  | waitPass (t a : Nat) (ft : Nat) (k : Nat)
+  | cbBlock (t a : Nat)
+  | cbPass (t a : Nat)
+  | auxCas (t a : Nat) (lock : Bool)
   | csOp (t a : Nat)
   | fin (t : Nat)
   | cs (a r : Nat) (overlap : Bool)
@@ -90,7 +103,11 @@ structure State where
   req : List Elem := []
   queue : List Nat := []
   flag : Nat → Bool := fun _ => false
-  flagNo : Nat → Nat := fun _ => 0
+  flagNo : Nat → Nat := fun _ => 0         -- per OS thread: number of `sync_awaiter` flags constructed on it (names)
+  flagTh : Nat → Nat := fun _ => 0         -- per agent: the thread that constructed its current flag
+  flagIx : Nat → Nat := fun _ => 0         -- per agent: the index of its current flag on that thread
+  held : Nat → Bool := fun _ => false      -- ownership object o is armed for the mutex
+  aux : Nat → Bool := fun _ => false       -- agent a's private auxiliary mutex is locked
   pc : Nat → Pc
   round : Nat → Nat := fun _ => 0
   incs : Nat := 0
@@ -105,6 +122,8 @@ structure State where
   fails : Nat → Nat := fun _ => 0        -- how many `try_lock` rounds of agent a failed
   grantReqs : List (Nat × Nat) := []     -- requests (agent, round) in the order they were granted
   failReqs : List (Nat × Nat) := []      -- `try_lock` requests (agent, round) that failed
+  bad : Bool := false                    -- an ownership was stored into an object that was still armed (the code would
+                                         -- run the deleter, i.e. `unlock`, there); proved unreachable: `Inv.noBad`
 
 def upd {α} (f : Nat → α) (i : Nat) (v : α) : Nat → α := fun j => if j = i then v else f j
 
@@ -129,6 +148,13 @@ inductive Outcome where
   deriving DecidableEq, Repr, Inhabited
 
 def curRound (c : Cfg) (s : State) (a : Nat) : Option Round := (c.rounds a)[s.round a]?
+def flOf (c : Cfg) (s : State) (a : Nat) : Option Flavour := (curRound c s a).map (·.fl)
+def relOf (c : Cfg) (s : State) (a : Nat) : Option Rel := (curRound c s a).map (·.rel)
+/-- the ownership object agent `a` uses in its current round -/
+def objOf (c : Cfg) (s : State) (a : Nat) : Nat :=
+  match curRound c s a with
+  | some r => if r.shared then c.n else a
+  | none => a
 
 /-- the nodes above the bottom marker, newest first -/
 def nodesOf : List Elem → List Nat
@@ -143,17 +169,15 @@ def handOver (c : Cfg) (s : State) (t a : Nat) : State × List Ev × Outcome :=
   | b :: rest =>
     let s := { s with queue := rest, grants := upd s.grants b (s.grants b + 1),
                       grantReqs := s.grantReqs ++ [(b, s.round b)] }
-    match c.kind b with
-    | AKind.sync =>
-        ({ setPc s a Pc.relDone with flag := upd s.flag b true }, [Ev.store t a b (s.flagNo b - 1)], Outcome.op)
-    | AKind.coro =>
+    match flOf c s b with
+    | some Flavour.co =>
         let s := setPc s b Pc.crit
         match c.kind a with
         | AKind.sync =>
             -- normal mode: the next owner is resumed inline on this thread
             ({ setPc s a Pc.relDone with cur := upd s.cur t (some b) }, [], Outcome.continue_)
         | AKind.coro =>
-            match (curRound c s a).map (·.rel) with
+            match relOf c s a with
             | some Rel.a =>
                 -- awaited suspend point: symmetric transfer to the next owner, the releasing coroutine is queued
                 ({ setPc s a Pc.relDone with rq := upd s.rq t (s.rq t ++ [a]), cur := upd s.cur t (some b) },
@@ -161,6 +185,24 @@ def handOver (c : Cfg) (s : State) (t a : Nat) : State × List Ev × Outcome :=
             | _ =>
                 -- coroutine mode: the next owner is appended to this thread's ready queue
                 ({ setPc s a Pc.relDone with rq := upd s.rq t (s.rq t ++ [b]) }, [], Outcome.continue_)
+    | some Flavour.cb =>
+        -- the callback runs inline, inside `unlock`: it stores the new owner's ownership into its object
+        ({ setPc s a Pc.relDone with flag := upd s.flag b true, held := upd s.held (objOf c s b) true,
+                                     bad := s.bad || s.held (objOf c s b) }, [], Outcome.continue_)
+    | _ =>
+        ({ setPc s a Pc.relDone with flag := upd s.flag b true }, [Ev.store t a (s.flagTh b) (s.flagIx b)], Outcome.op)
+
+/-- start of `unlock`, entered through the round's ownership object (`release()`, deleter) -/
+def unlockStart (c : Cfg) (s : State) (t a : Nat) : State × List Ev × Outcome :=
+  if s.held (objOf c s a) = false then
+    (setPc s a Pc.relDone, [], Outcome.continue_)      -- the object is not armed: nothing is released (unreachable)
+  else
+    let s := { s with held := upd s.held (objOf c s a) false }
+    match s.queue with
+    | [] =>
+        if s.req = [Elem.door] then ({ setPc s a Pc.relDone with req := [] }, [Ev.cas t a true Seen.door Seen.null], Outcome.op)
+        else (setPc s a Pc.relBuild, [Ev.cas t a false (seenOf s.req) Seen.null], Outcome.op)
+    | _ => handOver c s t a
 
 /-- one activity of agent `a` on thread `t` -/
 def agentStep (c : Cfg) (s : State) (t a : Nat) : State × List Ev × Outcome :=
@@ -179,24 +221,31 @@ def agentStep (c : Cfg) (s : State) (t a : Nat) : State × List Ev × Outcome :=
           (setPc s a (match r.fl with
               | Flavour.try_ => Pc.tryFail
               | Flavour.lock => Pc.subInit
+              | Flavour.cb => Pc.subInit
               | Flavour.co => Pc.sub Seen.null), [Ev.cas t a false (seenOf s.req) Seen.door], Outcome.op)
   | Pc.tryFail =>
       ({ setPc s a Pc.top with round := upd s.round a (s.round a + 1), fails := upd s.fails a (s.fails a + 1),
                                failReqs := s.failReqs ++ [(a, s.round a)] },
        [Ev.tryFail a (s.round a)], Outcome.continue_)
   | Pc.subInit =>
-      ({ setPc s a (Pc.sub Seen.null) with flag := upd s.flag a false, flagNo := upd s.flagNo a (s.flagNo a + 1) },
-       [], Outcome.continue_)
+      match flOf c s a with
+      | some Flavour.cb => ({ setPc s a (Pc.sub Seen.null) with flag := upd s.flag a false }, [], Outcome.continue_)
+      | _ =>
+        -- a `sync_awaiter` is constructed on this thread
+        ({ setPc s a (Pc.sub Seen.null) with flag := upd s.flag a false, flagTh := upd s.flagTh a t,
+                                             flagIx := upd s.flagIx a (s.flagNo t),
+                                             flagNo := upd s.flagNo t (s.flagNo t + 1) },
+         [], Outcome.continue_)
   | Pc.sub prev =>
       if seenOf s.req = prev then
         -- a coroutine published behind an owner is parked from this operation on: the rest of its thread's
         -- code (returning from `await_suspend`) does not belong to it any more, it may already run elsewhere
         ({ setPc s a (if prev = Seen.null then Pc.build
-                      else match c.kind a with
-                        | AKind.sync => Pc.waitFlag
-                        | AKind.coro => Pc.parked) with
+                      else match flOf c s a with
+                        | some Flavour.co => Pc.parked
+                        | _ => Pc.waitFlag) with
             req := Elem.node a :: s.req, stamp := upd s.stamp a s.clock, clock := s.clock + 1,
-            cur := if prev ≠ Seen.null ∧ c.kind a = AKind.coro then upd s.cur t none else s.cur },
+            cur := if prev ≠ Seen.null ∧ flOf c s a = some Flavour.co then upd s.cur t none else s.cur },
          [Ev.cas t a true (seenOf s.req) (Seen.node a)], Outcome.op)
       else (setPc s a (Pc.sub (seenOf s.req)), [Ev.cas t a false (seenOf s.req) (Seen.node a)], Outcome.op)
   | Pc.build =>
@@ -206,25 +255,39 @@ def agentStep (c : Cfg) (s : State) (t a : Nat) : State × List Ev × Outcome :=
                                  grantReqs := s.grantReqs ++ [(a, s.round a)] },
        [Ev.xchg t a (seenOf s.req) Seen.door], Outcome.op)
   | Pc.waitFlag =>
-      if s.flag a then (setPc s a Pc.crit, [Ev.waitPass t a (s.flagNo a - 1)], Outcome.op)
-      else (setPc s a Pc.blocked, [Ev.waitBlock t a (s.flagNo a - 1)], Outcome.blockedT)
-  | Pc.blocked => (setPc s a Pc.crit, [Ev.waitPass t a (s.flagNo a - 1)], Outcome.op)
+      if flOf c s a = some Flavour.cb then
+        if s.flag a then (setPc s a Pc.critS, [Ev.cbPass t a], Outcome.op)
+        else (setPc s a Pc.blocked, [Ev.cbBlock t a], Outcome.blockedT)
+      else
+        if s.flag a then (setPc s a Pc.crit, [Ev.waitPass t a (s.flagTh a) (s.flagIx a)], Outcome.op)
+        else (setPc s a Pc.blocked, [Ev.waitBlock t a (s.flagTh a) (s.flagIx a)], Outcome.blockedT)
+  | Pc.blocked =>
+      if flOf c s a = some Flavour.cb then (setPc s a Pc.critS, [Ev.cbPass t a], Outcome.op)
+      else (setPc s a Pc.crit, [Ev.waitPass t a (s.flagTh a) (s.flagIx a)], Outcome.op)
   | Pc.crit =>
+      ({ setPc s a Pc.afterCs with incs := s.incs + 1, grantLog := s.grantLog ++ [a],
+                                   held := upd s.held (objOf c s a) true, bad := s.bad || s.held (objOf c s a) },
+       [Ev.cs a (s.round a) (s.incs > 0), Ev.csOp t a], Outcome.op)
+  | Pc.critS =>
       ({ setPc s a Pc.afterCs with incs := s.incs + 1, grantLog := s.grantLog ++ [a] },
        [Ev.cs a (s.round a) (s.incs > 0), Ev.csOp t a], Outcome.op)
   | Pc.afterCs =>
       let s := { s with incs := s.incs - 1 }
-      match s.queue with
-      | [] =>
-          if s.req = [Elem.door] then ({ setPc s a Pc.relDone with req := [] }, [Ev.cas t a true Seen.door Seen.null], Outcome.op)
-          else (setPc s a Pc.relBuild, [Ev.cas t a false (seenOf s.req) Seen.null], Outcome.op)
-      | _ => handOver c s t a
+      match relOf c s a with
+      | some Rel.g => ({ setPc s a Pc.asg with aux := upd s.aux a true }, [Ev.auxCas t a true], Outcome.op)
+      | _ => unlockStart c s t a
+  | Pc.asg => unlockStart c s t a
   | Pc.relBuild =>
       ({ setPc s a Pc.relHand with req := [Elem.door], queue := (nodesOf s.req).reverse ++ s.queue },
        [Ev.xchg t a (seenOf s.req) Seen.door], Outcome.op)
   | Pc.relHand => handOver c s t a
   | Pc.relDone =>
-      ({ setPc s a Pc.top with round := upd s.round a (s.round a + 1) }, [], Outcome.continue_)
+      match relOf c s a with
+      | some Rel.g =>
+          -- the object (holding the auxiliary mutex now) is destroyed at the end of the round
+          ({ setPc s a Pc.top with round := upd s.round a (s.round a + 1), aux := upd s.aux a false },
+           [Ev.auxCas t a false], Outcome.op)
+      | _ => ({ setPc s a Pc.top with round := upd s.round a (s.round a + 1) }, [], Outcome.continue_)
 
 /-- is the thread able to run? -/
 def enabled (s : State) (t : Nat) : Bool :=
@@ -232,7 +295,7 @@ def enabled (s : State) (t : Nat) : Bool :=
   | TMain.finished => false
   | _ =>
     match s.cur t with
-    | some _ => true
+    | some b => if s.pc b = Pc.blocked then s.flag b else true   -- a blocking lock inside a coroutine blocks the thread
     | none =>
       match s.rq t with
       | _ :: _ => true
